@@ -9,5 +9,39 @@
 (***************************************************************************)
 EXTENDS Integers, Sequences, FiniteSets
 
-KnownFinding(stmts, clause) == ""
+Lets(stmts) == {i \in DOMAIN stmts : stmts[i].k = "let"}
+Ins(stmts) == {i \in DOMAIN stmts : stmts[i].k = "in"}
+InType(stmts, n) == IF \E i \in Ins(stmts) : stmts[i].n = n THEN stmts[CHOOSE i \in Ins(stmts) : stmts[i].n = n].t ELSE ""
+\* all binary sub-expressions of an expression
+RECURSIVE BinsE(_)
+BinsE(e) == CASE e.k = "bin" -> {e} \cup BinsE(e.l) \cup BinsE(e.r)
+              [] e.k \in {"un", "proj", "lit"} -> BinsE(e.e)
+              [] e.k = "cond" -> BinsE(e.c) \cup BinsE(e.v)
+              [] OTHER -> {}
+AllBins(stmts) == UNION {BinsE(stmts[i].e) : i \in Lets(stmts)}
+\* direct operand pairs {x, y} of input references with the same explicit type
+SameTypePairs(stmts) == {{b.l.n, b.r.n} : b \in {b \in AllBins(stmts) : b.l.k = "ref" /\ b.r.k = "ref" /\ b.l.n # b.r.n
+                            /\ InType(stmts, b.l.n) # "" /\ InType(stmts, b.l.n) = InType(stmts, b.r.n)}}
+
+(* KF-C01-sametype-triangle: three inputs of one signal type combined pairwise (a*b, b*c, a*c): the wire-colour    *)
+(* conflict graph is a triangle, which two colours cannot separate; the compiler silently merges two sources.     *)
+Triangle(stmts) == \E p, q, r \in SameTypePairs(stmts) : p # q /\ q # r /\ p # r /\ Cardinality(p \cup q \cup r) = 3
+
+(* KF-C01-merge-and-direct: s = a + b over same-typed inputs is a wire merge; using s together with a (or b) as   *)
+(* the two operands of one operation needs a on two differently coloured wires; the compiler reads a twice.       *)
+IsMergeOf(stmts, n, x) == \E i \in Lets(stmts) : stmts[i].n = n /\ stmts[i].e.k = "bin" /\ stmts[i].e.op = "+"
+                             /\ stmts[i].e.l.k = "ref" /\ stmts[i].e.r.k = "ref" /\ x \in {stmts[i].e.l.n, stmts[i].e.r.n}
+                             /\ InType(stmts, stmts[i].e.l.n) # "" /\ InType(stmts, stmts[i].e.l.n) = InType(stmts, stmts[i].e.r.n)
+MergeAndDirect(stmts) == \E b \in AllBins(stmts) : b.l.k = "ref" /\ b.r.k = "ref" /\ (IsMergeOf(stmts, b.l.n, b.r.n) \/ IsMergeOf(stmts, b.r.n, b.l.n))
+
+(* KF-C20-cse-alias: two named top-level results with the same expression (c and c : 1 count as the same) are     *)
+(* merged by common-subexpression elimination and only one of them keeps an anchor.                                *)
+NormE(e) == IF e.k = "cond" /\ e.v.k = "num" /\ e.v.v = 1 THEN e.c ELSE e
+CseAlias(stmts) == \E i, j \in Lets(stmts) : i # j /\ NormE(stmts[i].e) = NormE(stmts[j].e)
+
+KnownFinding(stmts, clause) ==
+  IF clause = "C01_value" /\ Triangle(stmts) THEN "KF-C01-sametype-triangle"
+  ELSE IF clause = "C01_value" /\ MergeAndDirect(stmts) THEN "KF-C01-merge-and-direct"
+  ELSE IF clause = "C20_exposed" /\ CseAlias(stmts) THEN "KF-C20-cse-alias"
+  ELSE ""
 =============================================================================
